@@ -342,6 +342,7 @@ func labelRtspStream(b []byte, sdps [][]byte, pkts [][]byte) string {
 }
 
 type fanConsumer struct {
+	left bool
 	pc   *parkConn
 	cmd  *rtsp.ServerCommandSession
 	sub  *rtsp.SubSession
@@ -589,12 +590,35 @@ func runFanoutHistory(cfgTok, evTok string) string {
 		}
 	}
 
+	disposed := false
 	for _, e := range strings.Split(evTok, ";") {
 		if e == "" {
 			continue
 		}
 		f := strings.Split(e, ":")
+		if disposed {
+			return "bad-event-after-dispose " + e
+		}
 		switch f[0] {
+		case "X":
+			// server shutdown: Group.Dispose().  The publisher's connection is closed by it.  The group is NOT told
+			// afterwards that the publisher is gone (the process is exiting): Dispose itself must finalise the input
+			if target != nil && pushAttached {
+				group.VerifFlushPushSessions()
+			}
+			group.Dispose()
+			disposed = true
+			if pubSession != nil {
+				pubSession = nil
+				collectRecs()
+				if target != nil && pushAttached {
+					select {
+					case <-target.doneCh:
+					case <-time.After(30 * time.Second):
+					}
+					pushAttached = false
+				}
+			}
 		case "I":
 			if pubSession != nil {
 				break
@@ -746,6 +770,7 @@ func runFanoutHistory(cfgTok, evTok string) string {
 			if !ok {
 				break
 			}
+			c.left = true
 			switch c.kind {
 			case 'd':
 				if !c.pc.isClosed() {
@@ -932,6 +957,32 @@ func runFanoutHistory(cfgTok, evTok string) string {
 			rl = []string{"-"}
 		}
 		parts = append(parts, "rec="+strings.Join(rl, "/"))
+	}
+	if disposed {
+		// every session the group still held must have been disposed (its connection closed)
+		var live []string
+		for _, id := range order {
+			c := consumers[id]
+			if c.left || c.kind == 'p' {
+				continue
+			}
+			open := false
+			if c.pc != nil {
+				open = !c.pc.isClosed()
+			} else {
+				open = !c.conn.isClosed()
+			}
+			if open {
+				live = append(live, fmt.Sprintf("%d", id))
+			}
+		}
+		if pubConn != nil && !pubConn.isClosed() {
+			live = append(live, "pub")
+		}
+		if len(live) == 0 {
+			live = []string{"-"}
+		}
+		parts = append(parts, "live="+strings.Join(live, ","))
 	}
 	if trecDir != "" {
 		var rl []string
